@@ -435,4 +435,83 @@ theorem step_rec (c q : Str) (s : State) (r : Rec) (o : PsOp)
         have h2 := (isFor_iff x c q).mp h'
         exact absurd ⟨h1.1.symm.trans h2.1, h1.2.symm.trans h2.2⟩ he
 
+/-- `step_rec` for any relation closed under the four things the server does to a subscription -/
+theorem step_rec_gen (R : Rec → Rec → Prop) (hrefl : ∀ r, R r r) (hcancel : ∀ r, R r (cancel .unsubscribed r))
+    (hdeliver : ∀ m r, R r (deliver m r)) (hread : ∀ r, R r (readRec r).1)
+    (c q : Str) (s : State) (r : Rec) (o : PsOp)
+    (hf : s.recs.filter (·.isFor c q) = [r]) (ho : isSub c q o = false) :
+    ∃ r', (step s o).1.recs.filter (·.isFor c q) = [r'] ∧ R r r' := by
+  cases o with
+  | sub c' q' ast cap =>
+    have hne : ¬ (c' = c ∧ q' = q) := by simpa [isSub] using ho
+    simp only [step]
+    split
+    · exact ⟨r, hf, hrefl r⟩
+    · refine ⟨r, ?_, hrefl r⟩
+      simp only [List.filter_append, List.filter_filter]
+      have h2 : List.filter (fun r : Rec => r.isFor c q)
+          [{ client := c', qstr := q', query := ast, cap := cap, queue := [], taken := [],
+             status := Status.active }] = [] := by
+        simp [Rec.isFor]; intro h1; exact fun h2 => hne ⟨h1, h2⟩
+      rw [h2, List.append_nil, ← hf]
+      apply List.filter_congr
+      intro x _
+      by_cases hx : x.isFor c q = true
+      · have k1 := (isFor_iff x c q).mp hx
+        have hx' : x.isFor c' q' = false := by
+          cases h' : x.isFor c' q' with
+          | false => rfl
+          | true =>
+            have k2 := (isFor_iff x c' q').mp h'
+            exact absurd ⟨k2.1.symm.trans k1.1, k2.2.symm.trans k1.2⟩ hne
+        simp [hx, hx']
+      · simp [hx]
+  | unsub c' q' =>
+    simp only [step]
+    split
+    · exact ⟨r, hf, hrefl r⟩
+    · simp only []
+      rw [filter_map_comm _ _ (fun x => by split <;> simp [cancel_isFor]), hf]
+      simp only [List.map_cons, List.map_nil]
+      split
+      · exact ⟨_, rfl, hcancel r⟩
+      · exact ⟨_, rfl, hrefl r⟩
+  | unsubAll c' =>
+    simp only [step]
+    split
+    · exact ⟨r, hf, hrefl r⟩
+    · simp only []
+      rw [filter_map_comm _ _ (fun x => by split <;> simp [cancel_isFor]), hf]
+      simp only [List.map_cons, List.map_nil]
+      split
+      · exact ⟨_, rfl, hcancel r⟩
+      · exact ⟨_, rfl, hrefl r⟩
+  | pub m =>
+    simp only [step]
+    rw [filter_map_comm _ _ (fun x => deliver_isFor m x c q), hf]
+    exact ⟨_, rfl, hdeliver m r⟩
+  | read c' q' =>
+    simp only [step]
+    by_cases he : c' = c ∧ q' = q
+    · obtain ⟨h1, h2⟩ := he
+      subst h1; subst h2
+      have := (mapFirst_filter_own (·.isFor c' q') (·.isFor c' q') readRec (fun _ h => h)
+        (fun x => readRec_isFor x c' q') s.recs).1
+      rw [this, hf]
+      have hr : r.isFor c' q' = true := by
+        have : r ∈ s.recs.filter (·.isFor c' q') := by rw [hf]; simp
+        exact (List.mem_filter.mp this).2
+      simp only [mapFirst, hr, if_true]
+      exact ⟨_, rfl, hread r⟩
+    · refine ⟨r, ?_, hrefl r⟩
+      rw [mapFirst_filter_other _ _ _ _ (fun x => readRec_isFor x c q), hf]
+      intro x hx
+      have h1 := (isFor_iff x c' q').mp hx
+      cases h' : x.isFor c q with
+      | false => rfl
+      | true =>
+        have h2 := (isFor_iff x c q).mp h'
+        exact absurd ⟨h1.1.symm.trans h2.1, h1.2.symm.trans h2.2⟩ he
+
+
 end Tmv.PubSub
